@@ -68,6 +68,8 @@ class Ty:
 INT, BOOL, STR, BYTES, NONE = Ty("Int"), Ty("Bool"), Ty("Str"), Ty("Bytes"), Ty("None")
 #: an object of which only `is None` / truthiness is ever asked (e.g. a regex match object)
 OBJ = Ty("Obj")
+#: a set of characters of which only membership / `issuperset(str)` is asked (e.g. a frozenset constant)
+CHARSET = Ty("CharSet")
 
 
 def Opt(t):
@@ -91,6 +93,8 @@ def lean_ty(t: Ty, top=True) -> str:
         return "Bytes"
     if t.kind in ("None", "Obj"):
         return "Unit"
+    if t.kind == "CharSet":
+        return "Char → Bool" if top else "(Char → Bool)"
     if t.kind == "Opt":
         s = "Option " + lean_ty(t.args[0], False)
     elif t.kind == "List":
@@ -125,6 +129,8 @@ def parse_ty(text: str) -> Ty:
             return STR
         if tk == "Bytes":
             return BYTES
+        if tk == "CharSet":
+            return CHARSET
         raise Untranslatable(f"bad type text {text!r} at {tk!r}")
 
     def app():
@@ -215,7 +221,9 @@ METHODS = {
     ("Str", "upper"): Fn("Pre.upper", [STR], STR),
     ("Str", "replace"): Fn("Pre.replace", [STR, STR, STR], STR),
     ("Str", "isascii"): Fn("Pre.isascii", [STR], BOOL),
+    ("CharSet", "issuperset"): Fn("Pre.issuperset", [CHARSET, STR], BOOL),
     ("Str", "split/0"): Fn("Pre.splitWs", [STR], Lst(STR)),
+    ("Str", "split/1"): Fn("Pre.splitOn", [STR, STR], Lst(STR), nonempty_lit=(1,)),
     ("Str", "join"): Fn("Pre.join", [STR, Lst(STR)], STR),
     ("Str", "strip/0"): Fn("Pre.strip", [STR], STR),
     ("Str", "lstrip/0"): Fn("Pre.lstrip", [STR], STR),
@@ -232,6 +240,8 @@ FUNCS = {
     "_plain_int_re.fullmatch": Fn("Pre.plainIntReFullmatch", [STR], Opt(OBJ)),
     # int(str): modelled on -?[0-9]+ only, marker error elsewhere
     "int": Fn("Pre.pyIntPlain", [STR], INT, raises=("ValueError",), partial_model=True),
+    # synthetic: `a, b = X.split(sep, 1)` (see Translator.stmt)
+    "<split-once>": Fn("Pre.splitOnce", [STR, STR], Tup(STR, STR), raises=("ValueError",), nonempty_lit=(1,)),
     "posixpath.normpath": Fn("Wz.Paths.normpath", [STR], STR),
     "posixpath.isabs": Fn("Wz.Paths.isabs", [STR], BOOL),
     # posixpath.join(a, *p) called as join(*parts): TypeError when parts is empty
@@ -274,6 +284,12 @@ class Spec:
     patterns: list = field(default_factory=list)
     consts: dict = field(default_factory=dict)
     static: dict = field(default_factory=dict)
+    #: {python name: Lean type text} - local variables whose first value does not determine the type
+    #: (an empty list literal)
+    locals: dict = field(default_factory=dict)
+    #: for `Class.__init__`: the attributes the constructor stores (`self.a = ...`), in order; the
+    #: translated function returns them as a tuple (the object). Other attribute stores are refused.
+    fields: list = field(default_factory=list)
     doc: str = ""
 
 
@@ -477,6 +493,19 @@ class Translator:
 
     def fall_off_end(self, fn):
         def k(env, loop):
+            if self.spec.fields:
+                # a constructor: the object = the tuple of its stored attributes
+                items = []
+                for f in self.spec.fields:
+                    if "self." + f not in env:
+                        self.bad(fn, f"attribute {f!r} is not stored on every path through the constructor")
+                    v = env["self." + f]
+                    items.append(E(v.lean, v.ty, None, True))
+                if len(items) == 1:
+                    return self.emit_return(items[0], fn, env, loop)
+                e = E("(" + ", ".join(x.lean for x in items) + ")", Tup(*[x.ty for x in items]), None, True)
+                e.items = items
+                return self.emit_return(e, fn, env, loop)
             # falling off the end of the function returns None
             return self.emit_return(E("none", NONE, None, True), fn, env, loop)
 
@@ -700,8 +729,13 @@ class Translator:
 
     def cond(self, n, env) -> E:
         """translate `n` in a boolean context (if-test, operand of not / and / or)"""
+        known = lookup_fact(env, n)
+        if known is not None:
+            return bconst(known)
         if isinstance(n, ast.BoolOp):
             return self.boolop(n, env, True)
+        if isinstance(n, ast.UnaryOp) and isinstance(n.op, ast.Not):
+            return self.negate(self.cond(n.operand, env))
         return self.truthy(self.expr(n, env), n)
 
     def boolop(self, n, env, bool_ctx=False) -> E:
@@ -1026,13 +1060,14 @@ class Translator:
                 except (NeedUnwrap, NoneUsed):
                     raise
                 if res is not None:
-                    if res[0].raises:
-                        found.append((x, res, lazy))
                     # descend into the arguments the call was resolved to (a pattern such as
-                    # `X.encode(..).decode(..)` hides its inner calls)
+                    # `X.encode(..).decode(..)` hides its inner calls); arguments are evaluated
+                    # before the call itself, so they come first in the result
                     for a in res[1]:
                         if isinstance(a, ast.AST):
                             walk(a, lazy)
+                    if res[0].raises:
+                        found.append((x, res, lazy))
                     return
             if isinstance(x, ast.Subscript) and not isinstance(x.slice, ast.Slice):
                 # indexing of list / str: IndexError
@@ -1041,9 +1076,9 @@ class Translator:
                 except (NeedUnwrap, NoneUsed):
                     raise
                 if b.ty.kind == "List" or b.ty in (STR, BYTES):
-                    found.append((x, None, lazy))
                     walk(x.value, lazy)
                     walk(x.slice, lazy)
+                    found.append((x, None, lazy))
                     return
             if self.static_value(x) is not None:
                 return
@@ -1139,9 +1174,41 @@ class Translator:
             return k(env, loop)
         if isinstance(s, ast.Return):
             return self.comment(s) + self.stmt_value(s, s.value if s.value is not None else ast.Constant(value=None), env, loop, lambda e, env2: self.emit_return(e, s, env2, loop), handlers=None)
+        if isinstance(s, ast.Assign) and len(s.targets) == 1 and isinstance(s.targets[0], ast.Attribute) and dotted(s.targets[0]) is not None and dotted(s.targets[0]).startswith("self."):
+            d = dotted(s.targets[0])
+            if d[5:] not in self.spec.fields:
+                self.bad(s, "store to an attribute of self that the spec does not list in `fields`")
+
+            def use_field(e, env2):
+                e = self.plain(e, s) if e.ty.kind != "Opt" else e
+                env3 = dict(env2)
+                ln = lean_name("self_" + d[5:])
+                env3[d] = Var(ln, e.ty)
+                drop_facts(env3, d)
+                return [f"let {ln} : {lean_ty(e.ty)} := {e.lean}"] + k(env3, loop)
+
+            return self.comment(s) + self.stmt_value(s, s.value, env, loop, use_field, handlers=None)
         if isinstance(s, ast.Assign):
             if len(s.targets) != 1:
                 self.bad(s, "chained assignment")
+            v = s.value
+            if (
+                isinstance(s.targets[0], ast.Tuple)
+                and len(s.targets[0].elts) == 2
+                and isinstance(v, ast.Call)
+                and isinstance(v.func, ast.Attribute)
+                and v.func.attr == "split"
+                and not v.keywords
+                and len(v.args) == 2
+                and isinstance(v.args[1], ast.Constant)
+                and v.args[1].value == 1
+                and type(v.args[1].value) is int
+            ):
+                # `a, b = X.split(sep, 1)`: exactly two parts, or ValueError (not enough values to unpack)
+                call = ast.Call(func=ast.Name(id="<split-once>", ctx=ast.Load()), args=[v.func.value, v.args[0]], keywords=[])
+                ast.copy_location(call, v)
+                ast.fix_missing_locations(call)
+                return self.comment(s) + self.stmt_value(s, call, env, loop, lambda e, env2: self.bind(s.targets[0], e, s, env2, loop, k), handlers=None)
             return self.comment(s) + self.stmt_value(s, s.value, env, loop, lambda e, env2: self.bind(s.targets[0], e, s, env2, loop, k), handlers=None)
         if isinstance(s, ast.AnnAssign):
             if s.value is None or not isinstance(s.target, ast.Name):
@@ -1158,10 +1225,15 @@ class Translator:
             tgt = s.value.func.value
             if tgt.id not in env or env[tgt.id].ty.kind != "List":
                 self.bad(s, "append on something that is not a local list")
-            value = ast.BinOp(left=ast.Name(id=tgt.id, ctx=ast.Load()), op=ast.Add(), right=ast.List(elts=[s.value.args[0]], ctx=ast.Load()))
-            ast.copy_location(value, s)
-            ast.fix_missing_locations(value)
-            return self.comment(s) + self.stmt_value(s, value, env, loop, lambda e, env2: self.bind(tgt, e, s, env2, loop, k), handlers=None)
+            elt_ty = env[tgt.id].ty.args[0]
+            lst_ty = env[tgt.id].ty
+
+            def use_append(e, env2):
+                item = self.coerce(e, elt_ty, s)
+                v = env2[tgt.id]
+                return self.bind(tgt, E(f"{v.lean} ++ [{item.lean}]", lst_ty), s, env2, loop, k)
+
+            return self.comment(s) + self.stmt_value(s, s.value.args[0], env, loop, use_append, handlers=None)
         if isinstance(s, ast.If):
             return self.stmt_if(s, env, loop, k)
         if isinstance(s, ast.Raise):
@@ -1188,49 +1260,53 @@ class Translator:
 
     # value-producing statements (return / assignment), with raising calls and None-splits
 
+    def bind_raising(self, s, value, env, loop, handlers, cont, first=True):
+        """bind the raising calls of expression `value` to temporaries, in evaluation order, each by
+        `match <call> with | .error … | .ok v => …`, then continue with cont(value', env')"""
+        rc = self.raising_calls(value, env)
+        if not rc:
+            if handlers is not None and first:
+                self.bad(s, "try body without a raising call (the except clause would be dead code; refusing to guess)")
+            return cont(value, env)
+        node, res, lazy = rc[0]
+        if lazy:
+            self.bad(s, "a raising call under a short-circuiting operator (only supported in the test of an `if`, where it is rewritten to nested ifs)")
+        if res is not None and res[0].partial_model and handlers is not None:
+            self.bad(s, f"{res[0].lean} is a partial model (marker error outside its domain) and must not be called inside try")
+        self.tmp += 1
+        tmp = f"v{self.tmp}_"
+        if res is None:
+            # indexing xs[i]
+            b = self.plain(self.expr(node.value, env), node.value)
+            ix = self.plain(self.expr(node.slice, env), node.slice)
+            if ix.ty != INT:
+                self.bad(node, "index that is not an int")
+            if b.ty.kind == "List":
+                call_lean, rty = f"Pre.getItem {P(b)} {P(ix)}", b.ty.args[0]
+            else:
+                call_lean, rty = f"Pre.getItemStr {P(b)} {P(ix)}", b.ty
+            raises = ("IndexError",)
+        else:
+            fn, args = res
+            call_lean = self.apply(fn, args, node, env).lean
+            rty = fn.result
+            raises = fn.raises
+        env3 = dict(env)
+        key = f"<tmp:{id(node)}>"
+        env3[key] = Var(tmp, rty)
+        value2 = _Subst(node, ast.Name(id=key, ctx=ast.Load())).visit(_copy(value))
+        ast.fix_missing_locations(value2)
+        ok_lines = self.bind_raising(s, value2, env3, loop, handlers, cont, first=False)
+        err_lines = self.error_arm(raises, handlers, s, env, loop)
+        return [f"match {call_lean} with"] + err_lines + [f"| .ok {tmp} =>"] + ind(ok_lines)
+
     def stmt_value(self, s, value, env, loop, use, handlers):
         """translate expression `value`, then `use(E, env) -> lines`. `handlers` = the except
         clauses of an enclosing try (list of (classes, body lines fn)) or None."""
 
         def body(env1):
             def inner(env2):
-                rc = self.raising_calls(value, env2)
-                if not rc:
-                    if handlers is not None:
-                        self.bad(s, "try body without a raising call (the except clause would be dead code; refusing to guess)")
-                    return use(self.expr_top(value, env2), env2)
-                if len(rc) > 1:
-                    self.bad(s, "more than one raising call in one statement")
-                node, res, lazy = rc[0]
-                if lazy:
-                    self.bad(s, "a raising call under a short-circuiting operator")
-                if res is not None and res[0].partial_model and handlers is not None:
-                    self.bad(s, f"{res[0].lean} is a partial model (marker error outside its domain) and must not be called inside try")
-                self.tmp += 1
-                tmp = f"v{self.tmp}_"
-                if res is None:
-                    # indexing xs[i]
-                    b = self.plain(self.expr(node.value, env2), node.value)
-                    ix = self.plain(self.expr(node.slice, env2), node.slice)
-                    if ix.ty != INT:
-                        self.bad(node, "index that is not an int")
-                    call_lean = f"Pre.getItem {P(b)} {P(ix)}"
-                    rty = b.ty.args[0] if b.ty.kind == "List" else b.ty
-                    raises = ("IndexError",)
-                else:
-                    fn, args = res
-                    call_lean = self.apply(fn, args, node, env2).lean
-                    rty = fn.result
-                    raises = fn.raises
-                env3 = dict(env2)
-                key = f"<tmp:{id(node)}>"
-                env3[key] = Var(tmp, rty)
-                value2 = _Subst(node, ast.Name(id=key, ctx=ast.Load())).visit(_copy(value))
-                ast.fix_missing_locations(value2)
-                # the substituted copy lost identity of `node`; _copy keeps a marker
-                ok_lines = use(self.expr_top(value2, env3), env3)
-                err_lines = self.error_arm(raises, handlers, s, env2, loop)
-                return [f"match {call_lean} with"] + err_lines + [f"| .ok {tmp} =>"] + ind(ok_lines)
+                return self.bind_raising(s, value, env2, loop, handlers, lambda v, e: use(self.expr_top(v, e), e))
 
             return self.guarded(s, env1, loop, inner)
 
@@ -1263,7 +1339,14 @@ class Translator:
             ln = lean_name(nm)
             ty = e.ty
             if ty.kind == "List" and ty.args[0] == NONE:
-                self.bad(s, "empty list literal of unknown element type (declare it in the spec via `locals`)")
+                if nm in self.spec.locals:
+                    ty = parse_ty(self.spec.locals[nm])
+                    e = self.coerce(e, ty, s)
+                elif nm in env and env[nm].ty.kind == "List":
+                    ty = env[nm].ty
+                    e = self.coerce(e, ty, s)
+                else:
+                    self.bad(s, "empty list literal of unknown element type (declare it in the spec via `locals`)")
             if nm in env and env[nm].ty != ty:
                 old = env[nm].ty
                 # keep a declared Optional type only when the new value is None / plain of the same base
@@ -1271,6 +1354,7 @@ class Translator:
                     self.bad(s, f"{nm!r} changes its type from {old} to {ty}")
             env2 = dict(env)
             env2[nm] = Var(ln, ty)
+            drop_facts(env2, nm)
             if ty == NONE:
                 # the variable is None from here on: no Lean binding needed
                 return k(env2, loop)
@@ -1290,6 +1374,7 @@ class Translator:
                 ln = lean_name(x.id)
                 lines.append(f"let {ln} : {lean_ty(e.ty.args[i])} := {tmp}{proj}")
                 env2[x.id] = Var(ln, e.ty.args[i])
+                drop_facts(env2, x.id)
             return lines + k(env2, loop)
         self.bad(s, "assignment target that is not a local name or a tuple of names")
 
@@ -1355,18 +1440,62 @@ class Translator:
 
         def body(env1):
             def inner(env2):
-                c = self.cond(s.test, env2)
-                if c.const is True:
-                    return ["--   (test decided here: true)"] + self.block(s.body, env2, loop, k)
-                if c.const is False:
-                    return ["--   (test decided here: false)"] + self.block(s.orelse, env2, loop, k)
-                a = self.block(s.body, env2, loop, k)
-                b = self.block(s.orelse, env2, loop, k)
-                return [f"if {c.lean} then"] + ind(a) + ["else"] + ind(b)
+                rc = self.raising_calls(s.test, env2)
+                if any(lazy for _, _, lazy in rc):
+                    return self.stmt(self.desugar_if(s), env2, loop, k)
+                if rc:
+                    return self.bind_raising(s, s.test, env2, loop, None, lambda v, e: self.if_core(s, v, e, loop, k))
+                return self.if_core(s, s.test, env2, loop, k)
 
             return self.guarded(s, env1, loop, inner)
 
         return self.comment(s) + self.with_splits(s, [s.test], env, loop, body)
+
+    def desugar_if(self, s):
+        """`if A and B: S else: T` -> `if A: (if B: S else: T) else: T` (and the dual for `or`), a
+        chained comparison first becomes a conjunction: Python's evaluation order made explicit so
+        that a raising operand that Python evaluates only conditionally is bound only there"""
+        t = s.test
+        if isinstance(t, ast.Compare) and len(t.ops) > 1:
+            operands = [t.left] + list(t.comparators)
+            parts = [ast.Compare(left=operands[i], ops=[t.ops[i]], comparators=[operands[i + 1]]) for i in range(len(t.ops))]
+            new_test = ast.BoolOp(op=ast.And(), values=parts)
+            n = ast.If(test=new_test, body=s.body, orelse=s.orelse)
+        elif isinstance(t, ast.BoolOp) and len(t.values) >= 2:
+            first = t.values[0]
+            rest = t.values[1] if len(t.values) == 2 else ast.BoolOp(op=t.op, values=t.values[1:])
+            if isinstance(t.op, ast.And):
+                inner = ast.If(test=rest, body=s.body, orelse=s.orelse)
+                n = ast.If(test=first, body=[inner], orelse=s.orelse)
+            else:
+                inner = ast.If(test=rest, body=s.body, orelse=s.orelse)
+                n = ast.If(test=first, body=s.body, orelse=[inner])
+            ast.copy_location(inner, s)
+            inner._py2lean_comment = "  … " + ("and " if isinstance(t.op, ast.And) else "or ") + ast.unparse(rest)
+        else:
+            self.bad(s, "a raising call under a short-circuiting construct that is not a top-level and / or / chained comparison of an if-test")
+        ast.copy_location(n, s)
+        ast.fix_missing_locations(n)
+        n._py2lean_comment = "  (evaluation order made explicit) if " + ast.unparse(n.test) + ":"
+        return n
+
+    def if_core(self, s, test, env, loop, k):
+        def body(env1):
+            def inner(env2):
+                c = self.cond(test, env2)
+                if c.const is True:
+                    return ["--   (test decided here: true)"] + self.block(s.body, env2, loop, k)
+                if c.const is False:
+                    return ["--   (test decided here: false)"] + self.block(s.orelse, env2, loop, k)
+                # inside the branches the test is known (until a variable it reads is re-assigned):
+                # a later syntactically equal test is decided, as Python's flow guarantees
+                a = self.block(s.body, add_fact(env2, test, True), loop, k)
+                b = self.block(s.orelse, add_fact(env2, test, False), loop, k)
+                return [f"if {c.lean} then"] + ind(a) + ["else"] + ind(b)
+
+            return self.guarded(s, env1, loop, inner)
+
+        return body(env)
 
     def stmt_try(self, s, env, loop, k):
         if s.orelse or s.finalbody or len(s.body) != 1:
@@ -1461,7 +1590,7 @@ class Translator:
                     self.bad(s, f"loop state {nm!r} is None before the loop: its type inside the loop is unknown")
             state_tys = [env1[nm].ty for nm in state]
             used = free_names(s.body)
-            captured = [nm for nm in env1 if nm in used and nm not in state and nm not in targets and env1[nm].ty != NONE]
+            captured = [nm for nm in env1 if nm != FACTS and nm in used and nm not in state and nm not in targets and env1[nm].ty != NONE]
             fname = f"{self.spec.name}.loop{self.nloops + 1}"
             head = self.opaque_args + "".join(" " + env1[nm].lean for nm in captured)
             lc = LoopCtx(fname, head, state, state_tys)
@@ -1484,7 +1613,7 @@ class Translator:
                     env_b[nm] = Var(lean_name(nm), elt.args[i])
             # known-None variables stay known inside the body
             for nm, v in env1.items():
-                if v.ty == NONE and nm not in env_b:
+                if nm != FACTS and v.ty == NONE and nm not in env_b:
                     env_b[nm] = v
 
             def k_body(env2, loop2):
@@ -1630,6 +1759,53 @@ def none_tested_names(test):
 
 def _is_bool_context(x):
     return True
+
+
+FACTS = "<facts>"
+
+
+def _norm_test(n):
+    """(key, polarity): `not X`, `a not in b`, `a != b`, `a is not b` are the negations of X,
+    `a in b`, `a == b`, `a is b`"""
+    pol = True
+    while True:
+        if isinstance(n, ast.UnaryOp) and isinstance(n.op, ast.Not):
+            n, pol = n.operand, not pol
+            continue
+        if isinstance(n, ast.Compare) and len(n.ops) == 1:
+            flip = {ast.NotIn: ast.In, ast.NotEq: ast.Eq, ast.IsNot: ast.Is}.get(type(n.ops[0]))
+            if flip is not None:
+                n = ast.Compare(left=n.left, ops=[flip()], comparators=n.comparators)
+                pol = not pol
+        break
+    return ast.dump(n), pol, n
+
+
+def add_fact(env, test, value: bool):
+    key, pol, n = _norm_test(test)
+    names = {x.id for x in ast.walk(n) if isinstance(x, ast.Name)}
+    env2 = dict(env)
+    facts = dict(env.get(FACTS, {}))
+    facts[key] = (value == pol, names)
+    env2[FACTS] = facts
+    return env2
+
+
+def lookup_fact(env, test):
+    facts = env.get(FACTS)
+    if not facts:
+        return None
+    key, pol, _ = _norm_test(test)
+    if key in facts:
+        v = facts[key][0]
+        return v if pol else not v
+    return None
+
+
+def drop_facts(env, name):
+    facts = env.get(FACTS)
+    if facts:
+        env[FACTS] = {k: v for k, v in facts.items() if name not in v[1]}
 
 
 def assigned_names(stmts):
